@@ -228,8 +228,8 @@ Proof. repeat split; try reflexivity; apply incl_refl. Qed.
 Lemma incl_filter {A} f (l : list A) : incl (filter f l) l.
 Proof. intros x H. apply filter_In in H. tauto. Qed.
 
-Lemma client_offer_used fixed cp c0 now fresh h used c :
-  client_offer blob fixed cp c0 now fresh = Offer blob h used -> used = Some c ->
+Lemma client_offer_used cp c0 now fresh h used c :
+  client_offer blob cp c0 now fresh = Offer blob h used -> used = Some c ->
   exists c00, c0 = Some c00 /\ pruned c c00 /\ c_valid blob c00 = true.
 Proof.
   unfold client_offer. destruct c0 as [c00|]; [|intros H; injection H as _ <-; discriminate].
@@ -248,8 +248,8 @@ Proof.
   cbn [c_t13 set_t13]. intros x Hx. apply E. apply incl_filter in Hx. exact Hx.
 Qed.
 
-Lemma client_offer_err fixed cp c0 now fresh c' c :
-  client_offer blob fixed cp c0 now fresh = OfferErr blob c' -> c' = Some c ->
+Lemma client_offer_err cp c0 now fresh c' c :
+  client_offer blob cp c0 now fresh = OfferErr blob c' -> c' = Some c ->
   exists c00, c0 = Some c00 /\ pruned c c00.
 Proof.
   unfold client_offer. destruct c0 as [c00|]; [|discriminate].
@@ -288,15 +288,15 @@ Qed.
 Ltac delta_cases := unfold conn_delta; cbv zeta; repeat break_inner;
                     cbn [d_store d_used d_newc d_conn d_log d_issue d_bump].
 
-Lemma delta_bump fixed w cp sv : 2 <= d_bump blob (conn_delta' fixed w cp sv).
+Lemma delta_bump w cp sv : 2 <= d_bump blob (conn_delta' w cp sv).
 Proof. delta_cases; lia. Qed.
 
-Lemma delta_store fixed w cp sv st e :
-  d_store blob (conn_delta' fixed w cp sv) = Some st -> In e st ->
+Lemma delta_store w cp sv st e :
+  d_store blob (conn_delta' w cp sv) = Some st -> In e st ->
   In e (sv_store sv) \/
   (exists v, e = {| ce_sess := v; ce_res := true; ce_time := w_now w |} /\
-             r_sview (d_log blob (conn_delta' fixed w cp sv)) = Some v /\
-             r_out (d_log blob (conn_delta' fixed w cp sv)) = ODone false false /\
+             r_sview (d_log blob (conn_delta' w cp sv)) = Some v /\
+             r_out (d_log blob (conn_delta' w cp sv)) = ODone false false /\
              s_sid v = w_fresh w + 1).
 Proof.
   delta_cases; intros H; try discriminate; injection H as <-; intros Hin;
@@ -310,8 +310,8 @@ Proof.
     right; eexists; (split; [reflexivity|]); cbn; repeat split; reflexivity.
 Qed.
 
-Lemma delta_store_sorted fixed w cp sv st :
-  d_store blob (conn_delta' fixed w cp sv) = Some st ->
+Lemma delta_store_sorted w cp sv st :
+  d_store blob (conn_delta' w cp sv) = Some st ->
   times_sorted (sv_store sv) -> (forall e, In e (sv_store sv) -> ce_time e <= w_now w) ->
   times_sorted st.
 Proof.
@@ -328,18 +328,18 @@ Proof.
   all: apply cache_put_sorted; assumption.
 Qed.
 
-Lemma delta_used fixed w cp sv c :
-  d_used blob (conn_delta' fixed w cp sv) = Some c ->
+Lemma delta_used w cp sv c :
+  d_used blob (conn_delta' w cp sv) = Some c ->
   exists i c0, cp_offer cp = Some i /\ zget (w_clients w) i = Some c0 /\ pruned c c0.
 Proof.
   unfold conn_delta. cbv zeta.
-  destruct (client_offer blob fixed cp
+  destruct (client_offer blob cp
               match cp_offer cp with Some i => zget (w_clients w) i | None => None end
               (w_now w) (w_fresh w)) as [c'|h used] eqn:CO.
-  - cbn [d_used]. intros ->. destruct (client_offer_err _ _ _ _ _ _ _ CO eq_refl) as [c00 [E P]].
+  - cbn [d_used]. intros ->. destruct (client_offer_err _ _ _ _ _ _ CO eq_refl) as [c00 [E P]].
     destruct (cp_offer cp) as [i|]; [|discriminate]. exists i, c00. repeat split; try assumption; apply P.
   - assert (used = Some c -> exists i c0, cp_offer cp = Some i /\ zget (w_clients w) i = Some c0 /\ pruned c c0) as K.
-    { intros ->. destruct (client_offer_used _ _ _ _ _ _ _ _ CO eq_refl) as [c00 [E [P _]]].
+    { intros ->. destruct (client_offer_used _ _ _ _ _ _ _ CO eq_refl) as [c00 [E [P _]]].
       destruct (cp_offer cp) as [i|]; [|discriminate]. exists i, c00. repeat split; try assumption; apply P. }
     repeat break_inner; cbn [d_used]; exact K.
 Qed.
@@ -351,11 +351,11 @@ Proof.
   intros [<-|H]; [exists nonce; reflexivity|apply (IH _ H)].
 Qed.
 
-Lemma delta_newc fixed w cp sv c :
-  d_newc blob (conn_delta' fixed w cp sv) = Some c ->
+Lemma delta_newc w cp sv c :
+  d_newc blob (conn_delta' w cp sv) = Some c ->
   (s_sid (c_sess c) = 0 \/ s_sid (c_sess c) = w_fresh w + 1) /\
   forall t, In t (c_t10 c ++ c_t13 c) ->
-            exists k n p, tk_blob t = seal k n p /\ d_issue blob (conn_delta' fixed w cp sv) = Some (k, p).
+            exists k n p, tk_blob t = seal k n p /\ d_issue blob (conn_delta' w cp sv) = Some (k, p).
 Proof.
   delta_cases; intros H; try discriminate; injection H as <-; cbn [c_sess s_sid c_t10 c_t13 app];
     (split; [auto|]); intros t Hin; try rewrite app_nil_r in Hin; cbn [In app mk_tickets Z.to_nat Pos.to_nat Pos.iter_op Nat.add] in Hin;
@@ -364,21 +364,21 @@ Proof.
     try (apply mk_tickets_in in Hin; destruct Hin as [n' E]; eexists; exists n'; eexists; split; [exact E|reflexivity]).
 Qed.
 
-Lemma delta_issue fixed w cp sv k p :
-  d_issue blob (conn_delta' fixed w cp sv) = Some (k, p) ->
-  is_done (r_out (d_log blob (conn_delta' fixed w cp sv))) /\
-  exists v, r_sview (d_log blob (conn_delta' fixed w cp sv)) = Some v /\ pay_view p v.
+Lemma delta_issue w cp sv k p :
+  d_issue blob (conn_delta' w cp sv) = Some (k, p) ->
+  is_done (r_out (d_log blob (conn_delta' w cp sv))) /\
+  exists v, r_sview (d_log blob (conn_delta' w cp sv)) = Some v /\ pay_view p v.
 Proof.
   delta_cases; intros H; try discriminate; injection H as <- <-; cbn [r_out r_sview];
     (split; [eexists; eexists; reflexivity|]); eexists; (split; [reflexivity|]);
     unfold pay_view; cbn; repeat split; reflexivity.
 Qed.
 
-Lemma delta_conn fixed w cp sv :
+Lemma delta_conn w cp sv :
   times_sorted (sv_store sv) ->
-  cr_ks (d_conn blob (conn_delta' fixed w cp sv)) = false /\
-  cr_kc (d_conn blob (conn_delta' fixed w cp sv)) = false /\
-  forall sid, cr_sobj (d_conn blob (conn_delta' fixed w cp sv)) = Some sid ->
+  cr_ks (d_conn blob (conn_delta' w cp sv)) = false /\
+  cr_kc (d_conn blob (conn_delta' w cp sv)) = false /\
+  forall sid, cr_sobj (d_conn blob (conn_delta' w cp sv)) = Some sid ->
               sid = w_fresh w + 1 \/ exists e, In e (sv_store sv) /\ s_sid (ce_sess e) = sid.
 Proof.
   intros Hs.
@@ -458,29 +458,29 @@ Proof.
   - intros cr sid sv e [].
 Qed.
 
-Lemma conn_step_inv fixed w cp : Inv w -> Inv (conn_step' fixed w cp).
+Lemma conn_step_inv w cp : Inv w -> Inv (conn_step' w cp).
 Proof.
   intros HI. unfold conn_step. destruct (zget (w_servers w) (cp_srv cp)) as [sv|] eqn:Z; [|exact HI].
-  set (d := conn_delta' fixed w cp sv).
+  set (d := conn_delta' w cp sv).
   pose proof (zget_in _ _ _ Z) as Hsv.
   destruct (inv_sorted w HI sv Hsv) as [Hsorted Htimes].
-  pose proof (delta_bump fixed w cp sv) as Hb. fold d in Hb.
+  pose proof (delta_bump w cp sv) as Hb. fold d in Hb.
   assert (forall e, entries (apply_delta blob w cp d) e ->
             entries w e \/ (exists v, e = {| ce_sess := v; ce_res := true; ce_time := w_now w |} /\
                                       r_sview (d_log blob d) = Some v /\ r_out (d_log blob d) = ODone false false /\
                                       s_sid v = w_fresh w + 1)) as Hent.
   { intros e [sv' [Hin He]]. destruct (servers_apply _ _ _ _ _ Z Hin) as [Hold|[st [Hst ->]]].
     - left. exists sv'. auto.
-    - cbn [sv_store set_store] in He. destruct (delta_store _ _ _ _ _ _ Hst He) as [Ho|Hn]; [|right; exact Hn].
+    - cbn [sv_store set_store] in He. destruct (delta_store _ _ _ _ _ Hst He) as [Ho|Hn]; [|right; exact Hn].
       left. exists sv. auto. }
   constructor.
   - rewrite fresh_apply. pose proof (inv_pos w HI). lia.
   - intros c Hc. rewrite fresh_apply.
     destruct (clients_apply _ _ _ _ Hc) as [H|[H|H]].
     + pose proof (inv_fresh_c w HI c H). lia.
-    + destruct (delta_used _ _ _ _ _ H) as [i [c0 [_ [G [P _]]]]]. rewrite P.
+    + destruct (delta_used _ _ _ _ H) as [i [c0 [_ [G [P _]]]]]. rewrite P.
       pose proof (inv_fresh_c w HI c0 (zget_in _ _ _ G)). lia.
-    + destruct (delta_newc _ _ _ _ _ H) as [[E|E] _]; rewrite E; pose proof (inv_pos w HI); lia.
+    + destruct (delta_newc _ _ _ _ H) as [[E|E] _]; rewrite E; pose proof (inv_pos w HI); lia.
   - intros e He. rewrite fresh_apply.
     destruct (Hent e He) as [H|[v [-> [_ [_ E]]]]].
     + pose proof (inv_fresh_s w HI e H). lia.
@@ -488,13 +488,13 @@ Proof.
   - intros cr sid Hin Hs. rewrite fresh_apply. rewrite conns_apply in Hin.
     apply in_app_or in Hin. destruct Hin as [Hin|[<-|[]]].
     + pose proof (inv_fresh_conn w HI cr sid Hin Hs). lia.
-    + destruct (delta_conn fixed w cp sv Hsorted) as [_ [_ K]]. destruct (K sid Hs) as [->|[e [A B]]]; [lia|].
+    + destruct (delta_conn w cp sv Hsorted) as [_ [_ K]]. destruct (K sid Hs) as [->|[e [A B]]]; [lia|].
       assert (entries w e) as He by (exists sv; auto). pose proof (inv_fresh_s w HI e He). lia.
   - intros sv' Hin. rewrite now_apply.
     destruct (servers_apply _ _ _ _ _ Z Hin) as [Hold|[st [Hst ->]]]; [apply (inv_sorted w HI); exact Hold|].
     cbn [sv_store set_store]. split.
     + eapply delta_store_sorted; eassumption.
-    + intros e He. destruct (delta_store _ _ _ _ _ _ Hst He) as [Ho|[v [-> _]]]; [apply Htimes; exact Ho|cbn; lia].
+    + intros e He. destruct (delta_store _ _ _ _ _ Hst He) as [Ho|[v [-> _]]]; [apply Htimes; exact Ho|cbn; lia].
   - intros e He. rewrite log_apply.
     destruct (Hent e He) as [H|[v [-> [A [B _]]]]].
     + destruct (inv_cache_origin w HI e H) as [r [R1 R2]]. exists r. split; [apply in_or_app; left; exact R1|exact R2].
@@ -502,24 +502,24 @@ Proof.
   - intros srv k p Hin. rewrite log_apply.
     destruct (issued_apply _ _ _ _ Hin) as [H|[k' [p' [E X]]]].
     + destruct (inv_issued w HI srv k p H) as [r [v [R1 R2]]]. exists r, v. split; [apply in_or_app; left; exact R1|exact R2].
-    + injection X as _ <- <-. destruct (delta_issue _ _ _ _ _ _ E) as [D [v [V P]]].
+    + injection X as _ <- <-. destruct (delta_issue _ _ _ _ _ E) as [D [v [V P]]].
       exists (d_log blob d), v. split; [apply in_or_app; right; left; reflexivity|]. auto.
   - intros c t Hc Ht. destruct (clients_apply _ _ _ _ Hc) as [H|[H|H]].
     + apply issued_apply_mono. apply (inv_blobs w HI c t H Ht).
-    + destruct (delta_used _ _ _ _ _ H) as [i [c0 [_ [G [_ [_ [_ [I10 I13]]]]]]]].
+    + destruct (delta_used _ _ _ _ H) as [i [c0 [_ [G [_ [_ [_ [I10 I13]]]]]]]].
       apply issued_apply_mono. apply (inv_blobs w HI c0 t (zget_in _ _ _ G)).
       apply in_app_or in Ht. apply in_or_app. destruct Ht as [Ht|Ht]; [left; apply I10; exact Ht|right; apply I13; exact Ht].
-    + destruct (delta_newc _ _ _ _ _ H) as [_ K]. destruct (K t Ht) as [k [n [p [E Is]]]].
+    + destruct (delta_newc _ _ _ _ H) as [_ K]. destruct (K t Ht) as [k [n [p [E Is]]]].
       left. exists (cp_srv cp), k, n, p. split; [exact E|].
       unfold apply_delta. cbn [w_issued mk_world]. unfold d. rewrite Is. apply in_or_app. right. left. reflexivity.
   - intros cr sid sv' e Hin Hks Hs Zg He Hsid.
     rewrite conns_apply in Hin.
     apply in_app_or in Hin. destruct Hin as [Hin|[<-|[]]].
-    2:{ destruct (delta_conn fixed w cp sv Hsorted) as [K _]. fold d in K. rewrite K in Hks. discriminate. }
+    2:{ destruct (delta_conn w cp sv Hsorted) as [K _]. fold d in K. rewrite K in Hks. discriminate. }
     unfold apply_delta in Zg. cbn [w_servers mk_world] in Zg. rewrite Z in Zg.
     destruct (d_store blob d) as [st|] eqn:Hst; [|apply (inv_ks w HI cr sid sv' e); assumption].
     apply zget_zset in Zg. destruct Zg as [[Es ->]|Zg]; [|apply (inv_ks w HI cr sid sv' e); assumption].
-    cbn [sv_store set_store] in He. destruct (delta_store _ _ _ _ _ _ Hst He) as [Ho|[v [-> [_ [_ E]]]]].
+    cbn [sv_store set_store] in He. destruct (delta_store _ _ _ _ _ Hst He) as [Ho|[v [-> [_ [_ E]]]]].
     + apply (inv_ks w HI cr sid sv e); try assumption. rewrite Es. exact Z.
     + cbn [ce_sess] in Hsid. pose proof (inv_fresh_conn w HI cr sid Hin Hs). lia.
 Qed.
@@ -624,7 +624,7 @@ Proof.
   intros [<-|H]; [left; exists a; auto|right; right; exact H].
 Qed.
 
-Lemma step_inv fixed w e : Inv w -> Inv (step' fixed w e).
+Lemma step_inv w e : Inv w -> Inv (step' w e).
 Proof.
   intros HI. destruct e as [cp|c k|dt|i cfg|ci which bit|ci which n|ci|ci|ci x]; cbn [step].
   - apply conn_step_inv. exact HI.
@@ -682,17 +682,17 @@ Proof.
     + intros c t Ht. left. exists t. split; [exact Ht|reflexivity].
 Qed.
 
-Lemma run_inv fixed h w : Inv w -> Inv (run' fixed h w).
+Lemma run_inv h w : Inv w -> Inv (run' h w).
 Proof.
   revert w. induction h as [|e h IH]; intros w HI; cbn [run fold_left]; [exact HI|].
   apply IH. apply step_inv. exact HI.
 Qed.
 
 (* every world reachable from an initial one by any history *)
-Definition reachable (fixed : bool) (w : world') : Prop :=
-  exists cfgs h, w = run' fixed h (init_world blob cfgs).
+Definition reachable (w : world') : Prop :=
+  exists cfgs h, w = run' h (init_world blob cfgs).
 
-Lemma reachable_inv fixed w : reachable fixed w -> Inv w.
+Lemma reachable_inv w : reachable w -> Inv w.
 Proof. intros [cfgs [h ->]]. apply run_inv. apply init_inv. Qed.
 
 End Hist.
